@@ -26,7 +26,12 @@ pub fn gen_request(conn: usize, i: usize, s: usize, last: bool, allow_malformed:
             ReqKind::NoBody
         }
         1 => ReqKind::Known(gen::below(s as u32 + 1) as usize),
-        2 => ReqKind::Known(s + 1 + gen::below(400) as usize),
+        2 => ReqKind::Known(if gen::ratio(1, 10) {
+            // around the 8 KiB connection buffer: head + body (+ the next head) straddle it
+            7900 + gen::below(400) as usize
+        } else {
+            s + 1 + gen::below(400) as usize
+        }),
         3 => {
             method = gen::pick(&["POST", "PUT"]).to_string();
             ReqKind::Unknown(gen::below(600) as usize)
